@@ -72,12 +72,13 @@ CloseP(t, f, s, w, sync) == << <<"L", "mu", TN[t], "-">> >> \o FlushUpP(f, s, sy
 ModeIdeal(f)   == Rd3(f, "ldloc")
 ModeAsBuilt(f) == << <<"R", "node", f, "-">> >> \o Rd3(f, "ldloc") \o << <<"RU", "node", f, "-">> >>
 \* File.SetMode()/SetModTime(): ideal = read-modify-write of File.node in ONE exclusive section,
-\* then publish; as built = GetNode() (shared section), later setNodeData assigns a node computed
-\* from that stale read (and reads File.node twice more without any lock)
+\* then publish; as built = GetNode() (shared section) for the UnixFS data (size, mode, mtime), then
+\* setNodeData reads File.node WITHOUT any lock for the links (= the content blocks, i.e. the tokens),
+\* later assigns the node built from these two stale reads, and reads File.node unlocked once more
 SetAttrIdeal(f) == << <<"L", "node", f, "-">>, <<"rd", "val", f, "ldloc">>, <<"wr", "val", f, "stloc">>,
                       <<"U", "node", f, "-">> >> \o DirLU("publoc")
-SetAttrAsBuilt(f) == Rd3(f, "ldloc") \o << <<"rd", "val", f, "peek">>, <<"L", "node", f, "-">>,
-                   <<"wr", "val", f, "stloc">>, <<"U", "node", f, "-">>, <<"rd", "val", f, "ldtmp">> >>
+SetAttrAsBuilt(f) == Rd3(f, "ldloc") \o << <<"rd", "val", f, "ldtmp">>, <<"L", "node", f, "-">>,
+                   <<"wr", "val", f, "sttmp">>, <<"U", "node", f, "-">>, <<"rd", "val", f, "ldtmp">> >>
                  \o DirLU("pubtmp")
 Variants(d, ideal, asbuilt) == IF d \in Devs THEN (IF Both THEN {ideal, asbuilt} ELSE {asbuilt}) ELSE {ideal}
 ModeP(f)    == Variants("Dev_C20_ModeReentrantRLock", ModeIdeal(f), ModeAsBuilt(f))
@@ -169,6 +170,7 @@ Restart == /\ opi' = [t \in T |-> 1] /\ pc' = [t \in T |-> 1] /\ st' = [t \in T 
 Apply(t, e, f, g) ==
     /\ node' = CASE e = "stbuf" -> [node EXCEPT ![f] = buf[t]]
                  [] e = "stloc" -> [node EXCEPT ![f] = loc[t]]
+                 [] e = "sttmp" -> [node EXCEPT ![f] = tmp[t]]
                  [] OTHER -> node
     /\ entry' = CASE e = "pubbuf" -> [entry EXCEPT ![f] = buf[t]]
                   [] e = "pubtmp" -> [entry EXCEPT ![f] = tmp[t]]
